@@ -59,9 +59,10 @@ def run(rep, tier, seed):
             cp["facts"] = [tuple(f) for f in cp["facts"]]
             cprogs.append(cp)
     n = size(tier, 80, 1500)
-    for name, quant in (("fol-qf", False), ("quant", True)):
+    for name, quant, par in (("fol-qf", False, True), ("quant", True, True), ("qparent", True, 1.0)):
         # half of the quantifier-free programs are the plain infer / reset_bounds / infer sequence on small closed/axiom-world KBs
-        progs = [streams.gen_fol_program(seed + 41, k, quant=quant, n_ops=(0, 6) if (quant or k % 2) else (0, 0)) for k in range(n if quant else 2 * n)]
+        progs = [streams.gen_fol_program(seed + 41, k, quant=quant, n_ops=(0, 6) if (quant or k % 2) else (0, 0), parents=par)
+                 for k in range((n if quant else 2 * n) if par is True else n // 2)]
         for k, p in enumerate(progs):
             rng = random.Random(sub_seed(seed, "c16f", k))
             mid = list(p["ops"])
